@@ -273,10 +273,62 @@ def code_like_subtracted_pt(ev, j, R, holes_charged_only=False):
 ETA_CHOICES = [(-2.0, 2.0), (-2.0, 2.0), (None, 1.0), (-1.0, None), (None, None), (2.0, -2.0), (0.0, 1.5), (2.5, None),
                (None, -2.5)]
 PT_CHOICES = [(10.0, None), (10.0, None), (None, None), (5.0, 30.0), (30.0, 5.0), (None, 25.0), (8.0, 8.0), (3.0, None),
-              (None, 6.0), (20.0, 12.0)]
+              (None, 6.0), (20.0, 12.0), (0.0, None), (0, 30.0)]
+
+
+def gen_exact_boundary(rng):
+    """An event in which a particle B sits at Delta R == R EXACTLY from a jet that consists of the single particle A:
+    same azimuth bit for bit (B's transverse momentum is A's scaled by a power of two, so delta_phi_to is exactly 0),
+    A massive and B massless at larger pseudorapidity (so the rapidity distance the clustering uses exceeds R and the two
+    are not merged), R := the delta_r the code computes = |eta_B - eta_A| exactly.  `delta_r < R` must then be false for
+    B, and the oracle can say so without a grey zone.  Returns (inp, info) or None when fastjet does not play along."""
+    fj = _fj()
+    pt, eta_a, phi = rng.uniform(10, 40), rng.uniform(0.2, 1.0), rng.uniform(0, 2 * math.pi)
+    m = 0.938
+    ax, ay, az = pt * math.cos(phi), pt * math.sin(phi), pt * math.sinh(eta_a)
+    A = dict(px=ax, py=ay, pz=az, E=math.sqrt(ax * ax + ay * ay + az * az + m * m), status=rng.choice([0, 1, 27]),
+             charge=rng.choice([1, -1]), pdg=2212)
+    sc = 2.0 ** -rng.randint(1, 4)
+    bx, by = ax * sc, ay * sc
+    bz = math.hypot(bx, by) * math.sinh(eta_a + rng.uniform(0.2, 0.9))
+    ch = rng.choice([0, 1, -1])
+    B = dict(px=bx, py=by, pz=bz, E=math.sqrt(bx * bx + by * by + bz * bz), status=rng.choice([-1, -11, 0, 27, 1]),
+             charge=ch, pdg=rng.choice(PDGS[0 if not ch else (1 if ch > 0 else -1)]))
+    ev = [A, B]
+    for _ in range(rng.randint(0, 2)):  # bystanders on the other side
+        ev.append(_particle(rng, rng.uniform(0.2, 2.0), rng.uniform(-2.5, -1.0), phi + math.pi + rng.uniform(-0.5, 0.5),
+                            rng.choice([0, 1, -1]), rng.choice([0, 1, -1])))
+    order = list(range(len(ev)))
+    rng.shuffle(order)
+    ev = [ev[k] for k in order]
+    alg = rng.choice(["antikt", "antikt", "kt", "cambridge"])
+    pa, pb = (fj.PseudoJet(d["px"], d["py"], d["pz"], d["E"]) for d in (A, B))
+    if pb.delta_phi_to(pa) != 0.0:
+        return None
+    R = abs(pb.eta() - pa.eta())
+    ok = False
+    for j in cluster_all(ev, alg, R):
+        if (j["px"], j["py"], j["pz"], j["E"]) == (A["px"], A["py"], A["pz"], A["E"]):
+            dr = j["dr"][ev.index(B)]
+            ok = dr == R
+    if not ok:
+        return None
+    events = [ev]
+    kinds = ["jets"]
+    if rng.random() < 0.5:
+        events.insert(0, gen_event(rng, rng.choice(["empty", "soft"])))
+        kinds.insert(0, "soft")
+    prior, ptag = gen_prior(rng)
+    # the lower pT bound keeps the soft jets (B alone, bystanders: possibly holes only) out of the selection
+    return dict(events=events, R=R, alg=alg, eta=[None, None], pt=[rng.choice([0.6, 0.75]) * pt, rng.choice([None, None, 2.0 * pt])],
+                only_charged=rng.random() < 0.5, prior=prior), dict(kinds=kinds, prior=ptag, tags=["boundary:dr==R exactly"])
 
 
 def gen_input(rng, ctx=None):
+    if rng.random() < 0.07:
+        r = gen_exact_boundary(rng)
+        if r is not None:
+            return r
     nev = rng.choice([0, 1, 1, 2, 2, 3, 3, 4, 5])
     jetless = ["empty", "soft", "outside"]
     kinds = []
@@ -927,6 +979,10 @@ def ref_groups(inp, holes_charged_only=False):
                 dphi = (pphi - jphi + math.pi) % (2 * math.pi) - math.pi
                 dr = math.hypot(peta - jeta, dphi)
                 if abs(dr - R) < AMBIG:
+                    # exactly on the cone: fastjet's own azimuth difference is 0.0 and its pseudorapidity difference is R
+                    # bit for bit, so Delta R == R with no rounding involved and `Delta R < R` is false
+                    if pjs[ev.index(d)].delta_phi_to(jet) == 0.0 and abs(pjs[ev.index(d)].eta() - jeta) == R:
+                        continue
                     return ("ambiguous", "Delta R within 1e-9 of R")
                 if dr < R:
                     charged = not (d["charge"] == 0)
